@@ -363,8 +363,6 @@ func execW3(t *testing.T, seed uint64, prop string, ops *w3Ops, descs []*model.D
 		// order, which is left canonical in these runs
 		scfg.ShuffleMaps = false
 	}
-	unclean := false
-	scfg.Unclean = func(simrt.Result) { unclean = true }
 	fsys := simfs.New()
 	// the server lists decoys first, then one controller per device
 	var ctrls []orgbController
@@ -473,6 +471,8 @@ func execW3(t *testing.T, seed uint64, prop string, ops *w3Ops, descs []*model.D
 			mu.Lock()
 			if wr.vio == nil {
 				wr.vio = &Vio{Props: v.Props, Clause: v.Clause, Detail: fmt.Sprintf("device %d: %s", st.idx, v.Detail), Step: step}
+				bb, _ := json.Marshal(ops)
+				notePending(wr.vio, &Replay{World: "W3", Prop: prop, Seed: seed, Ops: bb, Override: true})
 			}
 			mu.Unlock()
 		}
@@ -561,7 +561,6 @@ func execW3(t *testing.T, seed uint64, prop string, ops *w3Ops, descs []*model.D
 	if wr.res.Stuck && wr.vio == nil {
 		wr.infra = "run stuck: " + wr.res.StuckInfo
 	}
-	_ = unclean
 	return wr
 }
 
